@@ -1,7 +1,7 @@
 """C04 independent oracle: CPython json.loads on the text phosg produced with the standard option sets.
 
 The C++ harness (harness/c04.cc) writes c04.dump.<shard>.tsv into the work directory:
-    T <tree#> <tagged tree>        tagged tree = JSON with  null/true/false, "i<decimal>", "d<%a hex float>",
+    T <tree#> <tagged tree> <family>   family = "" for ordinary trees, the size-family name for large documents; tagged tree = JSON with  null/true/false, "i<decimal>", "d<%a hex float>",
                                    "s<hex bytes>", [...], {"k<hex key bytes>": ...}     (the GENERATOR's tree, not phosg's)
     X <tree#> <option mask> <hex of v.serialize(mask)>      for mask in {0, FORMAT, SORT_DICT_KEYS, FORMAT|SORT_DICT_KEYS}
 This stage decodes the text as latin-1 (phosg escapes every non-ASCII byte as \\u00XX, one escape per byte, so
@@ -143,12 +143,14 @@ def _judge_file(path):
     def work():
         tree = None
         tree_id = None
+        family = ""
         tree_raw = ""
         with open(path, encoding="latin-1") as f:
             for line in f:
                 p = line.rstrip("\n").split("\t")
                 if p[0] == "T":
                     tree_id, tree_raw = p[1], p[2]
+                    family = p[3] if len(p) > 3 else ""
                     try:
                         tree = json.loads(tree_raw)
                     except Exception as ex:  # the harness's own dump must always be readable
@@ -182,6 +184,12 @@ def _judge_file(path):
                 kind = "scalar" if not isinstance(tree, (list, dict)) else ("list" if isinstance(tree, list) else "dict")
                 k = "py:std:opt%02x:%s" % (opt, kind)
                 res["classes"][k] = res["classes"].get(k, 0) + 1
+                if family:
+                    k = "py:family:" + family
+                    res["classes"][k] = res["classes"].get(k, 0) + 1
+                    nb = len(text).bit_length() - 1
+                    k = "py:textlen:2^%d" % nb
+                    res["classes"][k] = res["classes"].get(k, 0) + 1
                 if len(res["samples"]) < 1 and len(text) < 200 and len(text) > 30:
                     res["samples"].append("json.loads agrees on options=0x%02x text=%r" % (opt, text))
 
